@@ -1028,8 +1028,12 @@ fn gen_est(rng: &mut Rng, nmax: usize, clf: bool) -> EstCase {
     let y: Vec<f64> = if clf {
         let labels: Vec<f64> = {
             let nl = rng.usize_in(1, 4);
-            let pool = [2.0, 3.0, 7.0, -1.0, 0.0, 10.5];
-            (0..nl).map(|i| pool[(i + rng.below(3)) % 6]).collect()
+            // class labels are arbitrary reals: integers, negatives, and fractional values that share an
+            // integer part (0.25 / 0.75, -0.5 / 0.5, 10.5 / 10.25) so that a mapping keyed on a truncated
+            // or rounded label would merge classes
+            let pool = [2.0, 3.0, 7.0, -1.0, 0.0, 10.5, 0.25, 0.75, -0.5, 0.5, 10.25, 2.5];
+            let off = if rng.chance(0.3) { 6 } else { 0 };
+            (0..nl).map(|i| pool[(off + i + rng.below(3)) % 12]).collect()
         };
         (0..n).map(|_| *rng.pick(&labels)).collect()
     } else if rng.bool() {
